@@ -6,6 +6,10 @@ import os
 import re
 
 VERIF = os.path.dirname(os.path.dirname(os.path.abspath(__file__)))
+matrix = {}
+mx = os.path.join(VERIF, "seeded", "MATRIX-quick.json")
+if os.path.exists(mx):
+    matrix = json.load(open(mx, encoding="utf-8"))
 rows = []
 for mp in sorted(glob.glob(os.path.join(VERIF, "seeded", "*", "meta.json"))):
     m = json.load(open(mp, encoding="utf-8"))
@@ -21,9 +25,13 @@ for mp in sorted(glob.glob(os.path.join(VERIF, "seeded", "*", "meta.json"))):
         first = notes.strip().splitlines()[0].lstrip("# ").strip() if notes.strip() else ""
     first = re.sub(r"\s+", " ", first)[:150].replace("|", "/")
     caught = m.get("caught_by", [])
+    checks = m["checks"]
+    if name in matrix and "caught_by" in matrix[name]:
+        caught = matrix[name]["caught_by"]
+        checks = matrix[name]["checks"]
     sigs = []
     for pid in caught:
-        sigs += m["checks"][pid].get("signatures", [])[:2]
+        sigs += checks[pid].get("signatures", [])[:2]
     rows.append(f"| `{name}` | {m['property']} | {first} | {', '.join(caught) or '**none**'} | "
                 f"{'; '.join('`' + s + '`' for s in sigs[:3])} |")
 table = ("| change | property | what (from the author's notes) | caught by (quick tier) | signatures |\n"
